@@ -31,6 +31,7 @@ fn pool(prop: &str) -> Vec<&'static FnSpec> {
             "C12" | "C13" | "C15" => registered(s),
             _ => true,
         })
+        .filter(|s| s.family != "nested")
         .filter(|s| prop == "C16" || modelled(s))
         .collect()
 }
@@ -46,7 +47,8 @@ pub fn gen_case2(prop: &str, seed: u64, run: u64) -> Case2 {
         _ => r.range(1, 3),
     };
     if prop == "C16" {
-        fns.push(SPECS[(run % SPECS.len() as u64) as usize].id);
+        let all: Vec<&FnSpec> = SPECS.iter().filter(|s| s.family != "nested").collect();
+        fns.push(all[(run % all.len() as u64) as usize].id);
     }
     if prop == "C12" {
         // mostly the invalidation-group family
